@@ -329,6 +329,8 @@ Fixpoint decode_all (id : nat) (blobs : list (list int)) : list case * list nat 
     end
   end.
 
-Definition summary_blobs (blobs : list (list int)) : list nat * list nat * list nat :=
+(* ids are returned in binary: reading a few thousand unary nats back from the VM dominates the run time *)
+Definition summary_blobs (blobs : list (list int)) : list N * list N * list N :=
   let (cs, bad) := decode_all 0 blobs in
-  (bad ++ mismatches cs, bad ++ violations cs, nontrivial_ids cs).
+  (map N.of_nat (bad ++ mismatches cs), map N.of_nat (bad ++ violations cs),
+   map N.of_nat (nontrivial_ids cs)).
